@@ -90,6 +90,11 @@ CLAIMED = {
    note="Trusted: rendering of the TLA+ library definitions to define-library text, projection. Imports precede all other forms. Mutation of an exported variable itself (as opposed to state behind exported procedures) is not exercised.",
    technique="TLA+ module-system model over the abstract machine, invariants checked by TLC on all small programs, replay of every explored history",
    ref="DESIGN.md section 5, C13"),
+ "C15": dict(
+   text="Locations.tla defines locations as cursor positions, extents, Within, and the verdict on a reported run-time error (a location is present, not beyond the text, inside the failing top-level form, and at the offending token for an unbound variable read or a non-procedure operator) and on a located syntax error (at or before the offending token). Random programs - valid preceding forms incl. macro definitions/uses and derived forms, then one failing form made of 10 fault kinds nested in up to 3 of 15 calling/derived-form contexts, all written inside that one form - are laid out with random line breaks, indentation and comments; the extents of the failing form and of the site are known from the layout and are themselves verified in TLC with the specification's reader (the marked text is exactly one datum). The location returned by Interpreter::eval and the FILE:LINE:COL printed by the binary are judged by LocTrace.tla.",
+   note="Trusted: the layout bookkeeping (checked per event by IsOneDatum), parsing of the binary's diagnostic. For faults other than unbound-read / non-procedure any position inside the failing form is accepted. The fault is always textually inside the failing form.",
+   technique="TLA+ location/extent relation over the reader specification, TLC trace validation of recorded error locations (library interface and CLI)",
+   ref="DESIGN.md section 5, C15"),
 }
 PENDING_REASON = "no check is registered for this property yet: the specification module and binding for it are still being built (see DESIGN.md section 10); nothing is claimed"
 
